@@ -55,9 +55,47 @@ func (e *emitter) op(name string, args ...string) string {
 	if !ok {
 		panic("corr: unregistered op " + name)
 	}
+	curOpName = name
+	keptCur = nil
 	res := guardT(opLimit(name), func() string { return f(args) })
+	// what the PREVIOUS op handed out must still be what it was (no package-level buffer, no shared backing array)
+	if res != "hang" {
+		for _, k := range keptPrev {
+			now := guardT(2*time.Second, k.live)
+			if now != k.snap {
+				res += " ALIASED:" + k.op
+				break
+			}
+		}
+		keptPrev, keptCur = keptCur, nil
+	} else {
+		keptPrev, keptCur = nil, nil
+	}
 	fmt.Fprintf(e.w, "%s %s\t%s\n", name, strings.Join(args, " "), res)
 	return res
+}
+
+// Retention. An op may register the live objects it obtained from the implementation (byte slices, structures) with a
+// closure that serialises them again; after the NEXT op has run, the closure must still give the same text. A result that
+// changed was aliasing storage the implementation reuses between calls: the next op's line is marked "ALIASED:<op>".
+type kept struct {
+	op, snap string
+	live     func() string
+}
+
+var (
+	keptPrev, keptCur []kept
+	curOpName         string
+)
+
+func retain(live func() string) {
+	keptCur = append(keptCur, kept{curOpName, live(), live})
+}
+
+// retainBytes registers a byte slice returned by the implementation and returns it
+func retainBytes(b []byte) []byte {
+	retain(func() string { return hx(b) })
+	return b
 }
 
 // runLines executes op lines read from stdin (replay, corpus, known findings).
@@ -120,8 +158,12 @@ func okHex(b []byte, err error) string {
 	if err != nil {
 		return "err"
 	}
+	retainBytes(b) // the implementation's own slice: must still read the same after the next op
 	return "ok " + hx(b)
 }
+
+// okKeep: "ok <hex>" for a slice obtained from the implementation, registered for the retention check
+func okKeep(b []byte) string { return "ok " + hx(retainBytes(b)) }
 
 func (e *emitter) bytes(n int) []byte {
 	b := make([]byte, n)
